@@ -652,6 +652,46 @@ def r_head_drop_atomic(ctx):
                       'loses entries the operation was meant to keep', instance=inst)
     else:
         ctx.ok(inst, m.loc(), 'no clear / empty publish followed by re-append')
+    # an early return that leaves the journal as it is agrees with the list model `journal[n:]` only for n == 0 (or an empty
+    # journal): evaluated for lengths 0..4 and positions 0..length+1
+    par = m.params[1] if len(m.params) > 1 else None
+    lenkey = 'len(self.%s)' % jp['mirror']
+
+    def early(stmts, guards):
+        for st in stmts:
+            if isinstance(st, ast.Return):
+                yield st, list(guards)
+                return
+            if isinstance(st, ast.If):
+                for x in early(st.body, guards + [(st.test, True)]):
+                    yield x
+                for x in early(st.orelse, guards + [(st.test, False)]):
+                    yield x
+                continue
+            if any(isinstance(c, ast.Call) for c in ast.walk(st)) or isinstance(st, (ast.Assign, ast.AugAssign, ast.Delete)):
+                # first effect: what follows is not an early return any more (a local computed from the mirror is fine)
+                if not (isinstance(st, ast.Assign) and isinstance(st.targets[0], ast.Name) and not any(
+                        isinstance(c, ast.Call) and not (isinstance(c.func, ast.Name) and c.func.id == 'len') for c in ast.walk(st.value))):
+                    return
+    for st, guards in early(m.node.body, []):
+        inst = 'an early return of the head drop keeps exactly what the list model keeps'
+        ctx.tick()
+        hit = None
+        try:
+            for n_ in range(0, 5):
+                for e_ in range(0, n_ + 2):
+                    env = {par: e_, lenkey: n_}
+                    if all(bool(U.eval_arith(g, env)) == pol for g, pol in guards) and e_ > 0 and n_ > 0 and hit is None:
+                        hit = (n_, e_)
+        except AnalysisError:
+            ctx.unproven(inst, m.loc(st), 'guard of the early return not evaluated')
+            continue
+        if hit:
+            ctx.violation('%s.deleteEntriesTo:early-return-keeps-head' % fj.name, m.loc(st),
+                          'with %d entries and position %d the method returns without dropping anything, an in-memory list keeps `journal[%d:]` (%d entries)'
+                          % (hit[0], hit[1], hit[1], max(0, hit[0] - hit[1])), instance=inst)
+        else:
+            ctx.ok(inst, m.loc(st), 'taken only for position 0 or an empty journal')
     ctx.expect_min(1)
 
 
